@@ -250,6 +250,9 @@ def mutant_jobs(prop, repo):
     # whole-tree twins: methods of every class / functions of every module change places
     jobs.append(("twin", "reverse-methods:whole-tree", ("*", "reverse_methods")))
     jobs.append(("twin", "reverse-module-functions:whole-tree", ("*", "reverse_module_functions")))
+    # whole-tree twins on control flow: early exits written as if/else, two-armed ifs with swapped arms
+    jobs.append(("twin", "nest-else:whole-tree", ("*", "nest_else")))
+    jobs.append(("twin", "swap-arms:whole-tree", ("*", "swap_arms")))
     for kind, jid, rule_id, rel, src in generate(model):
         try:
             ast.parse(src)
